@@ -26,12 +26,14 @@ fn main() {
     match args.get(1).map(|s| s.as_str()) {
         Some("token") => m_token::run(),
         Some("cping") => m_cping::run(),
+        Some("cpingstress") => m_cping::run_stress(),
         Some("async") => m_async::run(),
         Some("asyncw") => m_asyncw::run(),
         Some("asyncdup") => m_async::run_dup(),
         Some("adaptkey") => m_async::run_adaptkey(),
         Some("genlife") => m_genlife::run(),
         Some("cexec") => m_cexec::run(),
+        Some("execmix") => m_cexec::run_mix(),
         Some("cexec13") => m_cexec::run13(),
         Some("cexecdrop") => m_cexec::run_drop(),
         Some("cexecre") => m_cexec::run_resched(),
@@ -46,6 +48,7 @@ fn main() {
         Some("timing2") => m_timing::run2(),
         Some("signals") => m_signals::run(),
         Some("rawsrc") => m_rawsrc::run(),
+        Some("closedfd") => m_rawsrc::run_closed_fd(),
         Some("transient") => m_transient::run(),
         Some("transfail") => m_transient::run_fail(),
         Some("seq") => m_seq::run(args.get(2).expect("scenario file")),
